@@ -131,9 +131,50 @@ def st_c12(ctx):
     c1["res"] = "ok"
     c2 = copy.deepcopy(conf)
     c2["touched"] = True
-    return _judge_pairs(ctx, "Trace_FileStore", conf, [
+    ok = _judge_pairs(ctx, "Trace_FileStore", conf, [
         ("escaping name accepted", "oracle:ConfinementRefused", c1),
         ("refused but file system touched", "oracle:ConfinementTouchedFs", c2)]) and ok
+    return st_dispatch(ctx, work) and ok
+
+
+def st_dispatch(ctx, work):
+    """binding of Trace_Dispatch: a real recorded life-cycle history, corrupted field by field"""
+    from . import dispatch_driver as dd
+    from . import http_server
+    ops = [{"op": "init", "k": "sharded"},
+           {"op": "open", "h": "h1", "scheme": "file", "so": "unset"},
+           {"op": "store", "h": "h1", "v": 1},
+           {"op": "close", "h": "h1"},
+           {"op": "open_bad", "url": "ftp"},
+           {"op": "open", "h": "h2", "scheme": "http", "so": "unset"}]
+    srv = http_server.Server(work)
+    try:
+        good = dd.run_history(work, ops, srv, 1)
+    finally:
+        srv.stop()
+    muts = []
+    m = copy.deepcopy(good)
+    m["events"][2]["fresh"][0].update(st="err", v=0)
+    muts.append(("fresh reader misses the chunk", "oracle:DispatchReadYourWrites", m))
+    m = copy.deepcopy(good)
+    m["events"][2]["fresh"][3].update(v=2)
+    muts.append(("http reader gets another payload", ("oracle:DispatchReadYourWrites", "oracle:DispatchStaleRead"), m))
+    m = copy.deepcopy(good)
+    m["events"][1]["obs"]["plain"] = 1
+    muts.append(("plain chunk file in a sharded dataset", "oracle:DispatchMisroutePlain", m))
+    m = copy.deepcopy(good)
+    m["events"][3]["res"] = "plain"
+    muts.append(("unsupported URL accepted", "oracle:BadUrlAccepted", m))
+    m = copy.deepcopy(good)
+    m["events"][0]["res"] = "other:KeyError"
+    muts.append(("open raised an internal exception", "oracle:OpenRaisedOther", m))
+    m = copy.deepcopy(good)
+    m["events"][0]["res"] = "dataerror"
+    muts.append(("open failed on a readable dataset", "oracle:OpenFailed", m))
+    m = copy.deepcopy(good)
+    m["events"][0]["fresh"][1].update(st="ok", v=2)
+    muts.append(("payload read although nothing was stored", "oracle:DispatchStaleRead", m))
+    return _judge_pairs(ctx, "Trace_Dispatch", good, muts)
 
 
 def st_c03(ctx):
